@@ -7,6 +7,7 @@ package ugo
 import (
 	"fmt"
 	"io"
+	"math"
 	"reflect"
 
 	"github.com/ozanh/ugo/internal"
@@ -120,9 +121,13 @@ func newCompiler(
 	if constsCache == nil {
 		constsCache = make(map[Object]int)
 		for i := range opts.Constants {
-			switch opts.Constants[i].(type) {
-			case Int, Uint, String, Bool, Float, Char, *UndefinedType:
+			switch v := opts.Constants[i].(type) {
+			case Int, Uint, String, Bool, Char, *UndefinedType:
 				constsCache[opts.Constants[i]] = i
+			case Float:
+				if !(v == 0 && math.Signbit(float64(v))) {
+					constsCache[opts.Constants[i]] = i
+				}
 			}
 		}
 	}
@@ -477,8 +482,21 @@ func (c *Compiler) addConstant(obj Object) (index int) {
 		}
 	}()
 
-	switch obj.(type) {
-	case Int, Uint, String, Bool, Float, Char, *UndefinedType:
+	switch v := obj.(type) {
+	case Int, Uint, String, Bool, Char, *UndefinedType:
+		i, ok := c.constsCache[obj]
+		if ok {
+			index = i
+			return
+		}
+	case Float:
+		if v == 0 && math.Signbit(float64(v)) {
+			// -0.0 and 0.0 are equal as map keys but they are different
+			// constants, never share a slot between them.
+			index = len(c.constants)
+			c.constants = append(c.constants, obj)
+			return
+		}
 		i, ok := c.constsCache[obj]
 		if ok {
 			index = i
